@@ -251,7 +251,12 @@ def gen_cases(ctx):
     f = 1 if ctx.quick else 10
     out = []
     for i in range(40 * f):
-        out.append(gen_sdepth(rng, exact=(i % 2 == 0)))
+        out.append(dict(gen_sdepth(rng, exact=(i % 2 == 0)), layout=["C", "F", "T", "F"][i % 4]))
+    # fixed: a 2 x 3 bathymetry with six different depths in Fortran order and as a transposed view
+    for lay in ("F", "T"):
+        for vt in (1, 2):
+            out.append({"k": "sdepth", "exact": True, "vt": vt, "N": 2, "vals": [-1.0, -0.75, -0.5, -0.25, 0.0], "shape": [2, 3],
+                        "H": [16.0, 32.0, 64.0, 128.0, 256.0, 512.0], "hc": 0.0, "layout": lay})
     for i in range(60 * f):
         out.append(gen_stretch(rng, i))
     for i in range(40 * f):
@@ -391,6 +396,12 @@ def eval_sdepth(desc):
     vals, vt, hc, exact = desc["vals"], desc["vt"], desc["hc"], desc["exact"]
     Cw, Cr = np.array(vals[0::2]), np.array(vals[1::2])
     H = np.array(desc["H"], dtype=float).reshape(desc["shape"])
+    # memory layout of the bathymetry: C order, Fortran order, or a transposed view (same values, same shape)
+    lay = desc.get("layout", "C") if H.ndim == 2 else "C"
+    if lay == "F":
+        H = np.asfortranarray(H)
+    elif lay == "T":
+        H = np.ascontiguousarray(H.T).T
     zr = sdepth(H, hc, Cr, stagger="rho", Vtransform=vt)
     zw = sdepth(H, hc, Cw, stagger="w", Vtransform=vt)
     pb = []
